@@ -16,12 +16,4 @@ EmitCase == phase = "done" =>
                              how |-> res.how,
                              outcome |-> res.outcome])>>)
 
-(* The exhaustive token-sequence family: every sequence of <= MaxSeq tokens over the alphabet of the lexer
-   (one representative lexeme per BaseToken, plus an invalid lexeme).  No grammar: this is the input space
-   "all token sequences up to a small length"; the harness wraps each sequence in each Context. *)
-Alphabet == {"(", ")", "{", "}", "[", "]", "<", ">", "|", "&", "^", "!", "_", "+", "-", "*", "/", "%", ":", ";", ".", ",",
-             "=", "==", "!=", ">=", "<=", "<<", ">>", "->", "|:", "..",
-             "fn", "var", "const", "if", "goto", "loop", "return", "else", "cast", "as", "import", "pub", "extern",
-             "struct", "word8", "word64", "ty", "id", "bi", "lit", "0x1F", "suf", "chr", "true", "str", "bad"}
-Contexts == {"top", "body", "stmt", "type", "param", "member", "cond", "pubbody"}
 =============================================================================
